@@ -32,6 +32,8 @@ def _n_verification_errors(fn):
 
 
 def run(c):
+    import r9
+    c.r9("C05")
     F = c.F
     counts = {}
     for v in VERIFIERS:
